@@ -2,7 +2,10 @@ package c14
 
 import (
 	"bytes"
+
 	"fmt"
+	hserver "github.com/cloudwego/hertz/pkg/app/server"
+	"github.com/cloudwego/hertz/pkg/common/config"
 	"io"
 	"os"
 	"strings"
@@ -129,7 +132,15 @@ func netServer(transport string) (*srv.NetEcho, error) {
 	if s, ok := netServers[transport]; ok {
 		return s, nil
 	}
-	s, err := srv.NewNetEcho(srv.Config{Stream: true, MaxBody: 8 << 20, ReadBody: consume}, transport)
+	cfg := srv.Config{Stream: true, MaxBody: 8 << 20, ReadBody: consume}
+	tr := transport
+	if transport == "netpoll-idle0" {
+		// IdleTimeout 0: after every request the connection goes back to the poller instead of
+		// staying in the protocol server's keep-alive loop
+		tr = "netpoll"
+		cfg.Extra = []config.Option{hserver.WithIdleTimeout(0)}
+	}
+	s, err := srv.NewNetEcho(cfg, tr)
 	if err != nil {
 		return nil, err
 	}
@@ -459,7 +470,7 @@ func TestC14Loopback(t *testing.T) {
 		if r.Framing == wire.FrNone {
 			r.Body, r.BodyLen = nil, 0
 		}
-		c := &Case{Req: r, Truncate: -1, Probe: true, Transport: rapid.SampledFrom([]string{"netpoll", "netpoll", "standard"}).Draw(t, "transport")}
+		c := &Case{Req: r, Truncate: -1, Probe: true, Transport: rapid.SampledFrom([]string{"netpoll", "netpoll-idle0", "standard"}).Draw(t, "transport")}
 		c.Prog = genProgram(t, r.BodyLen, chunkEnds(r))
 		var enc []byte
 		enc, m := r.Encode(enc)
